@@ -16,7 +16,7 @@ func init() {
 	register(&Rule{Name: "TYPE.COPY", Props: []string{"C09"}, Floor: 3,
 		Doc: "a resolved type starts as a whole-struct copy of its parent's resolved type and overlays only the listed attributes",
 		Run: ruleTypeCopy})
-	register(&Rule{Name: "ALIAS.APPEND", Props: []string{"C09", "C06", "C08", "C19"}, Floor: 3,
+	register(&Rule{Name: "ALIAS.APPEND", Props: []string{"C09", "C06", "C08", "C19"}, Floor: 2,
 		Doc: "after a whole-struct copy, slice fields still alias the original's backing array: appending or storing into them writes shared storage",
 		Run: ruleAliasAppend})
 }
